@@ -138,3 +138,74 @@ Proof.
   destruct (tick env script d st) as [k cd st1 d1 e1 n|d1 st1 n|rest d1 st1 e1 n]; cbn [embed_tick]; try reflexivity.
   apply IH. exact K.
 Qed.
+
+(* ------------------------------------------------------------------ *)
+(** * Scripts that end the debugging themselves *)
+
+(** A script in the `--command` argument whose last command is `quit` or `exit` never lets the
+    debugger reach the console stream: whatever the console input is, the process (one stream) is
+    the two-channel model. *)
+Definition stops (c : cmd) : Prop := c = CQuit \/ c = CExit.
+
+Lemma run_command_stops env c d st : stops c ->
+  exists a, run_command env c d st = CmdAction a (set_icount d 0) st /\ a <> Proceed.
+Proof. intros [-> | ->]; eexists; (split; [reflexivity|discriminate]). Qed.
+
+Definition keeps_stop (c : cmd) (r : na_result) : Prop :=
+  match r with
+  | NaAction Proceed _ _ rest _ => exists pre, rest = pre ++ [c]
+  | _ => True
+  end.
+
+Lemma swait_loop_stops env c : stops c -> forall pre d st n,
+  swait_loop env (pre ++ [c]) d st n = embed (wait_loop env (pre ++ [c]) d st n) /\
+  keeps_stop c (wait_loop env (pre ++ [c]) d st n).
+Proof.
+  intros Hc. induction pre as [|x pre IH]; intros d st n; cbn [app swait_loop wait_loop].
+  - destruct (run_command_stops env c d st Hc) as (a & -> & Ha). cbn [embed keeps_stop]. split; [reflexivity|].
+    destruct a; [contradiction|exact I|exact I].
+  - destruct (run_command env x d st) as [a d1 st1|d1 st1|r d1]; cbn [embed keeps_stop].
+    + split; [reflexivity|]. destruct a; try exact I. exists pre. reflexivity.
+    + destruct (dispatch_status d1 st1) as [[a|] d2]; cbn [embed keeps_stop].
+      * split; [reflexivity|]. destruct a; try exact I. exists pre. reflexivity.
+      * apply IH.
+    + split; [reflexivity|exact I].
+Qed.
+
+Lemma snext_action_stops env c pre d st : stops c ->
+  snext_action env (pre ++ [c]) d st = embed (next_action env (pre ++ [c]) d st) /\
+  keeps_stop c (next_action env (pre ++ [c]) d st).
+Proof.
+  intros Hc. unfold snext_action, next_action.
+  destruct (dispatch_status _ st) as [[a|] d3]; cbn [embed keeps_stop].
+  - split; [reflexivity|]. destruct a; try exact I. exists pre. reflexivity.
+  - apply swait_loop_stops. exact Hc.
+Qed.
+
+Lemma stick_stops env c pre d st : stops c ->
+  stick env (pre ++ [c]) d st = embed_tick (tick env (pre ++ [c]) d st) /\
+  match tick env (pre ++ [c]) d st with
+  | TNext rest _ _ _ _ => exists pre', rest = pre' ++ [c]
+  | _ => True
+  end.
+Proof.
+  intros Hc. unfold stick, tick. destruct (snext_action_stops env c pre d st Hc) as [H K]. rewrite H.
+  destruct (next_action env (pre ++ [c]) d st) as [a d1 st1 rest n|x d1 rest n]; cbn [embed keeps_stop] in *.
+  - destruct a.
+    + destruct (at_halt st1); [split; [reflexivity|exact K]|].
+      destruct ((s_pc st1 <? s_orig st1) || (65024 <=? s_pc st1)); [split; [reflexivity|exact K]|].
+      destruct (W <=? s_pc st1 + 1); [split; [reflexivity|exact I]|].
+      destruct (execute _ _ _); (split; [reflexivity|]); try exact I. exact K.
+    + split; [reflexivity|exact I].
+    + split; [reflexivity|exact I].
+  - destruct x; split; try reflexivity; exact I.
+Qed.
+
+Theorem ssession_stopping_script env c : stops c -> forall fuel pre d st t e n,
+  ssession env fuel (pre ++ [c]) d st t e n = Some (session env fuel (pre ++ [c]) d st t e n).
+Proof.
+  intros Hc. induction fuel as [|fuel IH]; intros pre d st t e n; cbn [ssession session]; [reflexivity|].
+  destruct (stick_stops env c pre d st Hc) as [H K]. rewrite H.
+  destruct (tick env (pre ++ [c]) d st) as [k cd st1 d1 e1 m|d1 st1 m|rest d1 st1 e1 m]; cbn [embed_tick]; try reflexivity.
+  destruct K as (pre' & ->). apply IH.
+Qed.
